@@ -6,6 +6,7 @@ from pyvc.contract import Contract, register
 from pyvc.values import Struct, Sym, term, zand, zor, znot, zeq
 from spec.idx import (new_index, range_subset, range_equal, range_disjoint,
                       IdxSort)
+import contracts.c06 as c06        # noqa: F401  KroneckerDelta.eval / _eval_power (props C06, C09)
 
 
 def delta_struct(i, j):
